@@ -22,8 +22,9 @@ func init() {
 			"(R8) the dump functions never write into memory that may belong to the caller: no append to, copy into or element store through a slice that is (a re-slice of) the serializer's result or the caller's own []byte (RAW hands the caller's slice through); (R9) FormatFromAccept strips media-type parameters (;q=...) from an element before it compares it with anything, wildcards included. " +
 			"(R10) the format Load/DecompressAndLoad report is 0 (error), the inner loader's result, the format handed to LoadAsFormat in the same return, or one validated by ValidateSerializationFormat on every path - never the compression wrapper's identifier. " +
 			"(R11) sibling agreement (A14): the paired functions consist of the same operations - calls with their constant arguments, comparisons (canonical under negation and operand order), field reads/writes, channel operations, returns, each with the number of conditions it depends on - once the instance-specific names are mapped onto each other; logging is ignored, named differences are listed in the table: LoadFromHTTPRequest ~ LoadFromHTTPResponse. " +
+			"(R12) no load path of package dsd reads through a size cap (io.LimitReader / LimitedReader / CopyN). " +
 			"NOT decided: value equality through the third-party codecs (JSON/CBOR/MsgPack/YAML), compression correctness.",
-		Rules: []ruleFn{c09R1, c09R2, c09R3, c09R4, c09R5, c09R6, c09R8, c09R9, c09R10, func(c *Ctx, r *Report) { siblingRule(c, r, "C09-R11", sibDSD) },
+		Rules: []ruleFn{c09R1, c09R2, c09R3, c09R4, c09R5, c09R6, c09R8, c09R9, c09R10, func(c *Ctx, r *Report) { siblingRule(c, r, "C09-R11", sibDSD) }, c09R12,
 			repoErrRuleFor("C09-R7", 12, func(c *Ctx, fn *ssa.Function) bool { return short(fn.Pkg.Pkg.Path()) == "formats/dsd" }, map[string]string{})},
 	})
 }
